@@ -3,11 +3,11 @@ CONSTANTS
   PAll = {0, 1, 2, 3, 4, 5, 6, 7, 8, 9, 10, 11, 12}
   PFill = {0, 9}
   PCombo = {0, 1, 9}
-  PShift = {1, 7, 9, 12}
+  PShift = {1, 6, 7, 9, 12}
   PPartner = {1, 9}
-  PMul = {1, 3, 6, 9}
-  PDivA = {9, 12}
-  PDivB = {1, 6, 9}
+  PMul = {1, 3, 6, 9, 12}
+  PDivA = {6, 9, 12}
+  PDivB = {1, 3, 6, 9}
   PDivFill = {0, 9}
   PX = {0, 1, 7, 9, 12}
 INIT Init
